@@ -382,7 +382,8 @@ fn context_cases(run: &mut Run) {
         (Some(vec![format!("{me}")]), true, format!("http://{}/ok", me.replace("127.0.0.1", "127.0.0.1.")), vec![]),
     ];
     let mut all_ok = true;
-    for (allow, redirects, uri, script) in cases {
+    let cases: Vec<_> = [false, true].into_iter().flat_map(|a| cases.iter().cloned().map(move |c| (a, c))).collect();
+    for (async_mode, (allow, redirects, uri, script)) in cases {
         let mut core = serde_json::json!({ "allow_redirects": redirects });
         if let Some(v) = &allow {
             core["allowed_network_hosts"] = serde_json::json!(v);
@@ -397,19 +398,19 @@ fn context_cases(run: &mut Run) {
             }
         };
         let u: Uri = uri.parse().expect("uri");
-        let c = ChainCase { allow: allow.clone(), redirects, method: "GET".into(), uri: u.clone(), headers: vec![], body: vec![], script, async_mode: false };
+        let c = ChainCase { allow: allow.clone(), redirects, method: "GET".into(), uri: u.clone(), headers: vec![], body: vec![], script, async_mode };
         let (uris, hops) = plan(&c.uri, &c.script);
         lb.take();
         let request = Request::get(u).body(vec![]).expect("request");
-        let class = result_class(&ctx.resolver().http_resolve(request));
+        let class = result_class(&ctx_resolve(&ctx, request, async_mode));
         let n = lb.take().len();
         let req = format!("C26 ctx {}", c.line(&hops));
-        run.count(&format!("ctx_result_{}", class.split(':').next().unwrap()));
+        run.count(&format!("ctx_{}_result_{}", if async_mode { "async" } else { "sync" }, class.split(':').next().unwrap()));
         run.nontrivial(req.clone());
         let idx = run.case(req, format!("{class} n={n}"));
         if let Some(v) = &allow {
-            if n > 0 && !spec_allows(v, &c.uri) {
-                run.fail(idx, "disallowed-request-reached-transport", format!("Context resolver sent {} outside {v:?}", c.uri));
+            if n > 0 && (v.is_empty() || !spec_allows(v, &c.uri)) {
+                run.fail(idx, "disallowed-request-reached-transport", format!("Context::{} delivered {} request(s) for {} although core.allowed_network_hosts = {v:?}", if async_mode { "resolver_async()" } else { "resolver()" }, n, c.uri));
             }
             // a redirect hop outside the list must end in one of the three refusals; anything else
             // (a response, or a transport error from an attempted connection) means it was sent
@@ -443,24 +444,24 @@ fn site_cases(run: &mut Run, lb: &Loopback) {
     let me = format!("127.0.0.1:{}", lb.port);
     let lists: Vec<Option<Vec<String>>> = vec![Some(vec![]), Some(vec!["example.org".to_string()]), Some(vec![me.clone()]), None];
     let mut ran = 0;
-    for kind in [SiteKind::Ctx, SiteKind::Tsa, SiteKind::Remote] {
+    for (kind, async_mode) in [(SiteKind::Ctx, false), (SiteKind::Ctx, true), (SiteKind::Tsa, false), (SiteKind::Remote, false)] {
         for allow in &lists {
             for (url, script) in [
                 (format!("{}/site", lb.base()), vec![Reply::Resp { status: 200, locations: vec![] }]),
             ] {
                 let u: Uri = url.parse().expect("uri");
-                let c = ChainCase { allow: allow.clone(), redirects: true, method: "POST".into(), uri: u.clone(), headers: vec![], body: vec![], script, async_mode: false };
+                let c = ChainCase { allow: allow.clone(), redirects: true, method: "POST".into(), uri: u.clone(), headers: vec![], body: vec![], script, async_mode };
                 let (_, hops) = plan(&c.uri, &c.script);
                 let req = format!("C26 site kind={} {}", kind.tag(), c.line(&hops));
-                match run_site(lb, kind, allow, true, &url) {
+                match run_site(lb, kind, allow, true, &url, async_mode) {
                     Ok((class, hits)) => {
                         ran += 1;
-                        run.count(&format!("site_{}_{}", kind.tag(), class));
+                        run.count(&format!("site_{}_{}_{}", kind.tag(), if async_mode { "async" } else { "sync" }, class));
                         run.nontrivial(req.clone());
                         let idx = run.case(req, format!("{class} n={}", hits.len()));
                         if let Some(v) = allow {
                             for h in &hits {
-                                let outside = hit_uri(lb, h).map(|u| !spec_allows(v, &u)).unwrap_or(true);
+                                let outside = v.is_empty() || hit_uri(lb, h).map(|u| !spec_allows(v, &u)).unwrap_or(true);
                                 if outside {
                                     let cls = match kind {
                                         SiteKind::Ctx => "disallowed-request-reached-transport",
@@ -480,7 +481,7 @@ fn site_cases(run: &mut Run, lb: &Loopback) {
             }
         }
     }
-    run.obligations.insert("request-sites-driven-over-loopback".to_string(), ran == 12);
+    run.obligations.insert("request-sites-driven-over-loopback".to_string(), ran == 16);
 }
 
 /// `build_default_{sync,async}_resolver` must still be the wrapper stack the hook mirrors.
